@@ -5,7 +5,7 @@
    decisive mismatch, penalties, quality_laws).  In `tcp_distance s o` / `http_distance s o` the first
    argument is the database signature, the second the observation.
    Known classes (genuine defects of the unchanged code, each with a witness):
-     K1 ttl_form_gap (TCP)   [K2 win_mod_raw and K5 win_mss_inexact were repaired in /repo: 91576de, a8d31d2],
+     none left on the TCP side   [K1 ttl_form_gap, K2 win_mod_raw, K5 win_mss_inexact were repaired in /repo],
      K3 expsw_strict / expsw_reversed, K4 optional_name_reused (HTTP). *)
 From Coq Require Import List NArith Bool.
 From HN Require Import Base.Bytes Model.SigAst Model.Match Spec.InstanceSpec Proofs.MatchProofs.
@@ -14,12 +14,12 @@ Open Scope N_scope.
 (* ---- every instance is accepted with distance 0 and quality 1.0 ---- *)
 Theorem C12_tcp_instance_zero :
   forall s o : tcp_sig,
-    ttl_u8 (t_ittl s) -> tcp_instance s o -> known_tcp s o = false ->
+    ttl_u8 (t_ittl s) -> tcp_instance s o ->
     tcp_distance s o = Some 0 /\ tcp_score 0 = 100.
 Proof. exact tcp_instance_zero. Qed.
 Check C12_tcp_instance_zero :
   forall s o : tcp_sig,
-    ttl_u8 (t_ittl s) -> tcp_instance s o -> known_tcp s o = false ->
+    ttl_u8 (t_ittl s) -> tcp_instance s o ->
     tcp_distance s o = Some 0 /\ tcp_score 0 = 100.
 Print Assumptions C12_tcp_instance_zero.
 
@@ -53,7 +53,7 @@ Print Assumptions C12_http_decisive_none.
         (never below the instance's 0; exactly the fixed penalty when the new value is not admitted) ---- *)
 Theorem C12_tcp_single_field :
   forall s o : tcp_sig,
-    ttl_u8 (t_ittl s) -> tcp_instance s o -> known_tcp s o = false ->
+    ttl_u8 (t_ittl s) -> tcp_instance s o ->
     (forall v, tcp_distance s (set_olen o v) = Some (if v =? t_olen s then 0 else pen_olen))
     /\ (forall v, win_literal s o ->
                   tcp_distance s (set_mss o v) = Some (if optfield_inst_b (t_mss s) v then 0 else pen_mss))
@@ -63,7 +63,7 @@ Theorem C12_tcp_single_field :
 Proof. exact tcp_single_field. Qed.
 Check C12_tcp_single_field :
   forall s o : tcp_sig,
-    ttl_u8 (t_ittl s) -> tcp_instance s o -> known_tcp s o = false ->
+    ttl_u8 (t_ittl s) -> tcp_instance s o ->
     (forall v, tcp_distance s (set_olen o v) = Some (if v =? t_olen s then 0 else pen_olen))
     /\ (forall v, win_literal s o ->
                   tcp_distance s (set_mss o v) = Some (if optfield_inst_b (t_mss s) v then 0 else pen_mss))
@@ -76,13 +76,13 @@ Print Assumptions C12_tcp_single_field.
    different => the distance is exactly f's fixed penalty (ittl 2, olen 2, mss 2, wsize 2, wscale 1) *)
 Theorem C12_tcp_single_field_off :
   forall (f : tcp_field) (s o : tcp_sig),
-    ttl_u8 (t_ittl s) -> known_tcp s o = false ->
+    ttl_u8 (t_ittl s) ->
     single_field_off f s o = true -> field_differs_comparably f s o = true ->
     tcp_distance s o = Some (field_penalty f).
 Proof. exact tcp_single_field_off_exact. Qed.
 Check C12_tcp_single_field_off :
   forall (f : tcp_field) (s o : tcp_sig),
-    ttl_u8 (t_ittl s) -> known_tcp s o = false ->
+    ttl_u8 (t_ittl s) ->
     single_field_off f s o = true -> field_differs_comparably f s o = true ->
     tcp_distance s o = Some (field_penalty f).
 Print Assumptions C12_tcp_single_field_off.
@@ -125,6 +125,25 @@ Check C12_ttl_window_components :
   /\ (forall n w m, distance_window_size (WValue w) (WMod n) m =
                     Some (if (0 <? n) && (w mod n =? 0) then 0 else pen_wsize)).
 Print Assumptions C12_ttl_window_components.
+
+(* hop-count TTLs against the other signature forms (after fix c12ttl): `t+d` and `i+?` signatures are compared by
+   initial TTL, an `i-` signature accepts every observed TTL up to i and rejects the rest *)
+Theorem C12_ttl_distance_forms :
+  forall t d, t + d <= 255 ->
+    (forall t' d', t' + d' <= 255 ->
+       distance_ttl (TtlDistance t d) (TtlDistance t' d') = Some (if t + d =? t' + d' then 0 else pen_ttl))
+    /\ (forall i, distance_ttl (TtlDistance t d) (TtlGuess i) = Some (if t + d =? i then 0 else pen_ttl))
+    /\ (forall i, distance_ttl (TtlDistance t d) (TtlBad i) = if t <=? i then Some 0 else None)
+    /\ (forall i, distance_ttl (TtlValue t) (TtlBad i) = if t <=? i then Some 0 else None).
+Proof. exact ttl_distance_forms. Qed.
+Check C12_ttl_distance_forms :
+  forall t d, t + d <= 255 ->
+    (forall t' d', t' + d' <= 255 ->
+       distance_ttl (TtlDistance t d) (TtlDistance t' d') = Some (if t + d =? t' + d' then 0 else pen_ttl))
+    /\ (forall i, distance_ttl (TtlDistance t d) (TtlGuess i) = Some (if t + d =? i then 0 else pen_ttl))
+    /\ (forall i, distance_ttl (TtlDistance t d) (TtlBad i) = if t <=? i then Some 0 else None)
+    /\ (forall i, distance_ttl (TtlValue t) (TtlBad i) = if t <=? i then Some 0 else None).
+Print Assumptions C12_ttl_distance_forms.
 
 (* for ANY signature and observation: rejection exactly on a decisive mismatch or an incomparable TTL /
    window form; otherwise the distance is the plain sum of the five per-field penalties (each >= 0, so a
@@ -223,10 +242,12 @@ Check C12_quality_http :
 Print Assumptions C12_quality_http.
 
 (* ---- known classes: the unchanged code violates the property there (witnesses), K3 is tight ---- *)
-Theorem C12_known_ttl_form_gap_refuted :
-  exists s o, ttl_u8 (t_ittl s) /\ tcp_instance s o /\ ttl_form_gap s o = true /\ tcp_distance s o <> Some 0.
-Proof. exact Known_ttl_form_gap_refuted. Qed.
-Print Assumptions C12_known_ttl_form_gap_refuted.
+Theorem C12_known_ttl_form_gap_former_witness_agrees :
+  Forall (fun st => tcp_instance (w_tcp st (WMss 4)) (w_tcp (TtlDistance 54 10) (WMss 4))
+                    /\ tcp_distance (w_tcp st (WMss 4)) (w_tcp (TtlDistance 54 10) (WMss 4)) = Some 0)
+         (cons (TtlBad 64) (cons (TtlGuess 64) (cons (TtlDistance 60 4) nil))).
+Proof. exact Known_ttl_form_gap_former_witness_agrees. Qed.
+Print Assumptions C12_known_ttl_form_gap_former_witness_agrees.
 Theorem C12_known_expsw_strict_refuted :
   exists s o, http_instance s o /\ expsw_strict s o = true /\ http_distance s o <> Some 0.
 Proof. exact Known_expsw_strict_refuted. Qed.
